@@ -62,7 +62,7 @@ class Ctx(object):
         self.rule = ""
         self.constants = {}
         self.machinery_error = None
-        self.known = [k for k in load_known() if k["property"] == pid]
+        self.known = [k for k in load_known() if k["property"] == pid or pid in k.get("also", [])]
         self.open_keys = {k["key"]: k for k in self.known if k.get("status") == "open"}
         self.quick = tier == "quick"
 
@@ -234,3 +234,7 @@ def batched(it, n):
             buf = []
     if buf:
         yield buf
+
+
+def load_known_keys():
+    return {k["key"] for k in load_known() if k.get("status") == "open"}
